@@ -123,7 +123,10 @@ func (f *FixedUintField) GenReadFrom() (string, error) {
 			g.printlnf("}")
 		} else {
 			const Temp = `{{.Name}} = {{.Digit}}(0)
-			{
+			if l > {{.Width}} {
+				// More octets than the field has would shift the first ones out.
+				err = enc.ErrFormat{Msg: "fixed-width integer is longer than {{.Width}} octets"}
+			} else {
 				for i := 0; i < int(l); i++ {
 					x := byte(0)
 					x, err = reader.ReadByte()
@@ -141,9 +144,11 @@ func (f *FixedUintField) GenReadFrom() (string, error) {
 			g.executeTemplate(t, struct {
 				Name  string
 				Digit string
+				Width uint
 			}{
 				Name:  name,
 				Digit: digit,
+				Width: uint(f.l),
 			})
 		}
 	}
